@@ -1,6 +1,326 @@
-//! C11: harness commands for property C11 (stub).
+//! C11: joining scripts. Runs the real `arabic_joining`, `get_joining_type`, `setup_masks_inner` through the
+//! verif hooks (`rustybuzz::verif::joining`) and prints what they computed, line oriented.
+//!
+//!   rbv c11 reps                         representative characters of the 8 classes and the class the code gives them
+//!   rbv c11 feat                         ARABIC_FEATURES[action] for action 0..8
+//!   rbv c11 exh --maxlen L [--minlen M] [--chunk C]
+//!                                        exhaustive: every sequence of length M..L over the representatives, with every
+//!                                        pre-/post-context of length 0 or 1; actions packed 20 per word (3 bits each)
+//!   rbv c11 random --seed S --n N        random longer sequences / contexts over many characters
+//!   rbv c11 masks --seed S --n N         setup_masks_inner with random mask arrays
+//!   rbv c11 types                        every code point: table type, gc flag, final joining type, as runs
+//!   rbv c11 run PRE TEXT POST            one sequence (comma separated hex code points, `-` for empty)
+use crate::util::*;
+use rustybuzz::verif::joining as hook;
 
-pub fn run(_args: &[String]) {
-    eprintln!("c11: not implemented");
-    std::process::exit(2);
+/// Representatives in the order of `alphabet` of coq/Model/Joining.v: U L R D C T ALAPH DALATH_RISH.
+pub const REPS: [(char, &str); 8] = [
+    ('\u{0621}', "U"),  // ARABIC LETTER HAMZA
+    ('\u{A872}', "L"),  // PHAGS-PA SUPERFIXED LETTER RA
+    ('\u{0627}', "R"),  // ARABIC LETTER ALEF
+    ('\u{0628}', "D"),  // ARABIC LETTER BEH
+    ('\u{0640}', "C"),  // ARABIC TATWEEL
+    ('\u{064B}', "T"),  // ARABIC FATHATAN
+    ('\u{0710}', "A"),  // SYRIAC LETTER ALAPH
+    ('\u{0715}', "DR"), // SYRIAC LETTER DALATH
+];
+/// more characters per class, used by the random generator
+const MORE: [char; 14] = [
+    '\u{200D}', '\u{200C}', '\u{0722}', '\u{072A}', '\u{072F}', '\u{0716}', '\u{0646}', '\u{0648}', '\u{07CA}', '\u{180A}',
+    '\u{1820}', '\u{0670}', '\u{070F}', '\u{10AC0}',
+];
+
+pub fn run(args: &[String]) {
+    quiet_panics();
+    match args.get(0).map(|s| s.as_str()) {
+        Some("reps") => reps(),
+        Some("feat") => feat(),
+        Some("exh") => exh(args),
+        Some("random") => random(args),
+        Some("masks") => masks(args),
+        Some("types") => types(),
+        Some("run") => run_one(args),
+        _ => {
+            eprintln!("c11 reps|feat|exh|random|masks|types|run");
+            std::process::exit(2)
+        }
+    }
+}
+
+fn reps() {
+    for (i, (c, name)) in REPS.iter().enumerate() {
+        println!("rep {} {} {} {}", i, name, *c as u32, hook::joining_type(*c));
+    }
+    println!("context_capacity {}", hook::context_capacity());
+}
+
+fn feat() {
+    for a in 0..=8u8 {
+        match hook::action_feature(a) {
+            Some(t) => println!("feat {} {}", a, u32::from_be_bytes(t)),
+            None => println!("feat {} none", a),
+        }
+    }
+}
+
+fn ctx(k: usize) -> Vec<char> {
+    if k == 0 { vec![] } else { vec![REPS[k - 1].0] }
+}
+
+fn seq_of(n: usize, mut idx: u64) -> Vec<char> {
+    let mut v = vec![' '; n];
+    for j in (0..n).rev() {
+        v[j] = REPS[(idx % 8) as usize].0;
+        idx /= 8;
+    }
+    v
+}
+
+/// One block: sequences start..start+count of length n with contexts (pre, post). Returns the output lines.
+fn block(n: usize, pre: usize, post: usize, start: u64, count: u64) -> (String, u64) {
+    let p = ctx(pre);
+    let q = ctx(post);
+    let mut out = String::new();
+    let mut words: Vec<u64> = Vec::with_capacity(((count as usize) * n + 19) / 20);
+    let mut cur: u64 = 0;
+    let mut fill = 0;
+    let mut joined = 0u64;
+    for idx in start..start + count {
+        let t = seq_of(n, idx);
+        let (p2, t2, q2) = (p.clone(), t.clone(), q.clone());
+        let acts = match catch(move || hook::arabic_actions(&p2, &t2, &q2)) {
+            Ok(a) => a,
+            Err(cls) => {
+                out.push_str(&format!("panic {} {} {} {} {}\n", n, pre, post, idx, cls));
+                vec![0; n]
+            }
+        };
+        if acts.len() != n || acts.iter().any(|&a| a > 7) {
+            out.push_str(&format!("anomaly {} {} {} {} {:?}\n", n, pre, post, idx, acts));
+        }
+        if acts.iter().any(|&a| (1..=6).contains(&a)) {
+            joined += 1;
+        }
+        for j in 0..n {
+            let a = (*acts.get(j).unwrap_or(&0) & 7) as u64;
+            cur |= a << (3 * fill);
+            fill += 1;
+            if fill == 20 {
+                words.push(cur);
+                cur = 0;
+                fill = 0;
+            }
+        }
+    }
+    if fill > 0 {
+        words.push(cur);
+    }
+    out.push_str(&format!("blk {} {} {} {} {}", n, pre, post, start, count));
+    for w in words {
+        out.push(' ');
+        out.push_str(&w.to_string());
+    }
+    out.push('\n');
+    (out, joined)
+}
+
+fn exh(args: &[String]) {
+    let maxlen = arg_u64(args, "--maxlen", 4) as usize;
+    let minlen = arg_u64(args, "--minlen", 0) as usize;
+    let chunk = arg_u64(args, "--chunk", 65536).max(20);
+    let mut jobs: Vec<(usize, usize, usize, u64, u64)> = Vec::new();
+    for n in minlen..=maxlen {
+        let total = 8u64.pow(n as u32);
+        for pre in 0..9 {
+            for post in 0..9 {
+                let mut s = 0;
+                while s < total {
+                    let c = chunk.min(total - s);
+                    jobs.push((n, pre, post, s, c));
+                    s += c;
+                }
+            }
+        }
+    }
+    let nthreads = std::thread::available_parallelism().map(|x| x.get()).unwrap_or(4).min(16);
+    let jobs = std::sync::Arc::new(jobs);
+    let next = std::sync::Arc::new(std::sync::atomic::AtomicUsize::new(0));
+    let results = std::sync::Arc::new(std::sync::Mutex::new(vec![(String::new(), 0u64); jobs.len()]));
+    let mut hs = Vec::new();
+    for _ in 0..nthreads {
+        let (jobs, next, results) = (jobs.clone(), next.clone(), results.clone());
+        hs.push(std::thread::spawn(move || loop {
+            let k = next.fetch_add(1, std::sync::atomic::Ordering::SeqCst);
+            if k >= jobs.len() {
+                break;
+            }
+            let (n, pre, post, s, c) = jobs[k];
+            let r = block(n, pre, post, s, c);
+            results.lock().unwrap()[k] = r;
+        }));
+    }
+    for h in hs {
+        let _ = h.join();
+    }
+    let res = results.lock().unwrap();
+    let mut total = 0u64;
+    let mut joined = 0u64;
+    for (k, r) in res.iter().enumerate() {
+        print!("{}", r.0);
+        total += jobs[k].4;
+        joined += r.1;
+    }
+    println!("exh-summary cases={} joined={}", total, joined);
+}
+
+fn rand_char(r: &mut Rng) -> char {
+    loop {
+        let cp: u32 = match r.below(100) {
+            0..=39 => REPS[r.below(8) as usize].0 as u32,
+            40..=54 => MORE[r.below(MORE.len() as u64) as usize] as u32,
+            55..=79 => {
+                let ranges: [(u32, u32); 11] = [
+                    (0x0600, 0x08FF), (0x0600, 0x077F), (0x0700, 0x074F), (0x1806, 0x18AA), (0x200C, 0x200F), (0x2066, 0x2069),
+                    (0xA840, 0xA873), (0x10AC0, 0x10AEF), (0x10B80, 0x10BAF), (0x10D00, 0x10D23), (0x1E900, 0x1E94B),
+                ];
+                let (lo, hi) = ranges[r.below(ranges.len() as u64) as usize];
+                r.range(lo as u64, hi as u64) as u32
+            }
+            80..=89 => *r.pick(&[0x064Bu32, 0x0651, 0x0300, 0x034F, 0x00AD, 0xFE0F, 0x20DD, 0x0730, 0x08F0, 0xE0100]),
+            90..=95 => *r.pick(&[0x20u32, 0x61, 0x2E, 0x30, 0x05D0, 0x0915, 0x4E00]),
+            _ => r.below(0x110000) as u32,
+        };
+        if let Some(c) = char::from_u32(cp) {
+            return c;
+        }
+    }
+}
+
+fn cps(v: &[char]) -> String {
+    v.iter().map(|c| (*c as u32).to_string()).collect::<Vec<_>>().join(" ")
+}
+fn cls(v: &[char]) -> String {
+    v.iter().map(|c| hook::joining_type(*c).to_string()).collect::<Vec<_>>().join(" ")
+}
+
+/// `rand <pre cps> ; <text cps> ; <post cps> ; <pre classes> ; <text classes> ; <post classes> ; <actions|panic X>`
+fn random(args: &[String]) {
+    let seed = arg_u64(args, "--seed", 1);
+    let n = arg_u64(args, "--n", 2000);
+    let maxctx = arg_u64(args, "--maxctx", 5);
+    let mut r = Rng::new(seed ^ 0xC11);
+    for _ in 0..n {
+        let tl = if r.chance(1, 10) { r.below(4) } else { r.range(5, 14) } as usize;
+        let pl = r.below(maxctx + 1) as usize;
+        let ql = r.below(maxctx + 1) as usize;
+        let pre: Vec<char> = (0..pl).map(|_| rand_char(&mut r)).collect();
+        let text: Vec<char> = (0..tl).map(|_| rand_char(&mut r)).collect();
+        let post: Vec<char> = (0..ql).map(|_| rand_char(&mut r)).collect();
+        let (a, b, c) = (pre.clone(), text.clone(), post.clone());
+        let res = catch(move || hook::arabic_actions(&a, &b, &c));
+        let obs = match res {
+            Ok(v) => v.iter().map(|x| x.to_string()).collect::<Vec<_>>().join(" "),
+            Err(c) => format!("panic {}", c),
+        };
+        println!("rand {} ; {} ; {} ; {} ; {} ; {} ; {}", cps(&pre), cps(&text), cps(&post), cls(&pre), cls(&text), cls(&post), obs);
+    }
+}
+
+/// `mask <8 mask_array values> ; <pre classes> ; <text classes> ; <post classes> ; <init masks> ; <masks after|panic X> ; <text cps>`
+fn masks(args: &[String]) {
+    let seed = arg_u64(args, "--seed", 1);
+    let n = arg_u64(args, "--n", 500);
+    let mut r = Rng::new(seed ^ 0x3A5C);
+    for _ in 0..n {
+        // distinct single bits above the glyph-flag bits for the 7 features, 0 for NONE (as data_create_arabic
+        // leaves it); now and then a feature the font lacks (mask 0)
+        let mut bits: Vec<u32> = (4..31).collect();
+        let mut marr = [0u32; 8];
+        for i in 0..7 {
+            let k = r.below(bits.len() as u64) as usize;
+            marr[i] = if r.chance(1, 8) { 0 } else { 1u32 << bits[k] };
+            bits.remove(k);
+        }
+        let global = 1u32 << 31;
+        let tl = r.range(1, 10) as usize;
+        let pre: Vec<char> = (0..r.below(3)).map(|_| rand_char(&mut r)).collect();
+        let text: Vec<char> = (0..tl).map(|_| rand_char(&mut r)).collect();
+        let post: Vec<char> = (0..r.below(3)).map(|_| rand_char(&mut r)).collect();
+        let init = if r.chance(1, 2) { global } else { 0 };
+        let (a, b, c) = (pre.clone(), text.clone(), post.clone());
+        let res = catch(move || hook::arabic_masks(&a, &b, &c, marr, init, false));
+        let obs = match res {
+            // bits 0..2 are the glyph flags (unsafe-to-break etc., property C04) that arabic_joining also sets
+            Ok(v) => v.iter().map(|x| (x & !7u32).to_string()).collect::<Vec<_>>().join(" "),
+            Err(c) => format!("panic {}", c),
+        };
+        let ms = marr.iter().map(|x| x.to_string()).collect::<Vec<_>>().join(" ");
+        let inits = vec![init.to_string(); tl].join(" ");
+        println!("mask {} ; {} ; {} ; {} ; {} ; {} ; {}", ms, cls(&pre), cls(&text), cls(&post), inits, obs, cps(&text));
+    }
+}
+
+/// Every scalar value: (table type, gc is Mn/Me/Cf, final joining type) as maximal runs `type lo hi raw flag final`.
+fn types() {
+    let mut cur: Option<(u32, u32, u8, bool, u8)> = None;
+    let mut n = 0u64;
+    let mut runs = 0u64;
+    for cp in 0..0x110000u32 {
+        let c = match char::from_u32(cp) {
+            Some(c) => c,
+            None => {
+                if let Some((lo, hi, a, b, f)) = cur.take() {
+                    println!("type {} {} {} {} {}", lo, hi, a, b as u8, f);
+                    runs += 1;
+                }
+                continue;
+            }
+        };
+        n += 1;
+        let t = (hook::raw_joining_type(c), hook::gc_mark_or_format(c), hook::joining_type(c));
+        match cur {
+            Some((lo, hi, a, b, f)) if hi + 1 == cp && (a, b, f) == t => cur = Some((lo, cp, a, b, f)),
+            Some((lo, hi, a, b, f)) => {
+                println!("type {} {} {} {} {}", lo, hi, a, b as u8, f);
+                runs += 1;
+                cur = Some((cp, cp, t.0, t.1, t.2));
+            }
+            None => cur = Some((cp, cp, t.0, t.1, t.2)),
+        }
+    }
+    if let Some((lo, hi, a, b, f)) = cur {
+        println!("type {} {} {} {} {}", lo, hi, a, b as u8, f);
+        runs += 1;
+    }
+    println!("types-summary chars={} runs={}", n, runs);
+}
+
+fn parse_cps(s: &str) -> Vec<char> {
+    if s == "-" || s.is_empty() {
+        return vec![];
+    }
+    s.split(',').filter_map(|x| u32::from_str_radix(x.trim_start_matches("U+"), 16).ok()).filter_map(char::from_u32).collect()
+}
+
+/// `run PRE TEXT POST` -> `ran <pre classes> ; <text classes> ; <post classes> ; <actions|panic X> ; <feature tag per char>`
+fn run_one(args: &[String]) {
+    let pre = parse_cps(args.get(1).map(|s| s.as_str()).unwrap_or("-"));
+    let text = parse_cps(args.get(2).map(|s| s.as_str()).unwrap_or("-"));
+    let post = parse_cps(args.get(3).map(|s| s.as_str()).unwrap_or("-"));
+    let (a, b, c) = (pre.clone(), text.clone(), post.clone());
+    let res = catch(move || hook::arabic_actions(&a, &b, &c));
+    let (obs, feats) = match res {
+        Ok(v) => (
+            v.iter().map(|x| x.to_string()).collect::<Vec<_>>().join(" "),
+            v.iter()
+                .map(|x| match hook::action_feature(*x) {
+                    Some(t) => String::from_utf8_lossy(&t).to_string(),
+                    None => "-".to_string(),
+                })
+                .collect::<Vec<_>>()
+                .join(" "),
+        ),
+        Err(c) => (format!("panic {}", c), String::new()),
+    };
+    println!("ran {} ; {} ; {} ; {} ; {}", cls(&pre), cls(&text), cls(&post), obs, feats);
 }
